@@ -428,6 +428,10 @@ pub fn gen_dict(rng: &mut Rng, cfg: &GenCfg) -> DictSrc {
 pub fn gen_sentence(rng: &mut Rng, d: &DictSrc, cfg: &GenCfg, max_parts: usize) -> String {
     let parts = rng.below(max_parts + 1);
     let mut s = String::new();
+    // now and then the sentence begins with U+FEFF (a byte-order mark is an ordinary character of the input)
+    if rng.chance(1, 40) {
+        s.push('\u{FEFF}');
+    }
     for _ in 0..parts {
         match rng.below(10) {
             0..=4 if !d.surfaces.is_empty() => s.push_str(&d.surfaces[rng.below(d.surfaces.len())]),
